@@ -1,12 +1,16 @@
 """C07 - groups complete exactly when their count returns to zero.
-(A) TLC: Group.tla (one action per atomic access / futex call of dispatch_group in semaphore.c), all
+(A) TLC: Group.tla (one action per atomic access / futex call of dispatch_group in semaphore.c; several groups,
+    dispatch_group_async items with ItemStart / nested calls / ItemEnd / the library's leave), all
     interleavings of 3 threads running bounded client programs (enter/leave/async/notify, NOW, timed and
-    untimed waits, >= 2 generations); invariants = the property; liveness under fairness on small programs;
-    spec mutants; reachability witnesses.
-(B) trace validation: recorded executions of the real dispatch_group (random histories under schedule
-    perturbation + a steered reproduction of finding F2) vs GroupTrace.tla, invariants in every state.
-(V1) API oracles in the driver (wait()==0 => count was zero, timeouts not early, every notification ran
-    exactly once, nothing left behind = no hang).
+    untimed waits, >= 2 generations; two groups with an item of A that asyncs / enters / notifies into B from
+    inside its block); invariants = the property (per group: count conservation = every enter balanced by a
+    leave ON THE SAME GROUP); liveness under fairness on small programs; spec mutants; reachability witnesses.
+(B) trace validation: recorded executions of the real dispatch_group (random histories over 2-3 groups alive at
+    once, items that submit nested work to other groups, under schedule perturbation + a steered reproduction of
+    finding F2) vs GroupTrace.tla, invariants in every state; the library's leave after an item's callout
+    must be on the group that item entered.
+(V1) API oracles in the driver (wait()==0 => count was zero, timeouts not early, every notification / item ran
+    exactly once, every group back to zero at quiescence, nothing left behind = no hang).
 KNOWN FINDING F2 (DESIGN.md section 9): a notifier pushed between a zero decision and the list snapshot of
 _dispatch_group_wake is submitted although work entered before its notify call has not left.  The property
 (NotifyNotEarly) is kept as stated; the ghost classification earlyF2 / earlyOther splits it: only the F2 class
@@ -27,11 +31,16 @@ MUTANTS = [
     ("wake_noclear", "NotifyOnce"),                 # wake fires the list without clearing it -> fired twice
     ("leave_anyvalue", "NotifyNotEarlyExceptF2"),   # leave runs the wake path whatever old_value was
 ]
+# two groups: the leave after a dispatch_group_async block goes to the group the block last submitted to (the
+# continuation was reused) instead of the group the item entered; refuted by each of these on its own
+MUT2G = "async_leaves_last_touched_group"
+MUTANTS_2G = ["TypeOK", "WaitOkImpliesZero", "NotifyNotEarlyExceptF2"]
+TRACE_HDR = {"maxn": 12, "ng": 3}
 
 
-def cfg_text(prog, invs, mut="none", workers="{}", spur=1, props=None, fair=True, nids="{1, 2}"):
-    s = "SPECIFICATION %s\nCONSTANTS\n  Threads <- T3\n  Workers = %s\n  K = 2\n  NIds = %s\n  Prog <- %s\n" \
-        "  MaxSpur = %d\n  Mut = \"%s\"\n" % ("FairSpec" if fair else "Spec", workers, nids, prog, spur, mut)
+def cfg_text(prog, invs, mut="none", workers="{}", spur=1, props=None, fair=True, nids="{1, 2}", groups="{1}"):
+    s = "SPECIFICATION %s\nCONSTANTS\n  Threads <- T3\n  Workers = %s\n  Groups = %s\n  K = 2\n  NIds = %s\n  Prog <- %s\n" \
+        "  MaxSpur = %d\n  Mut = \"%s\"\n" % ("FairSpec" if fair else "Spec", workers, groups, nids, prog, spur, mut)
     if invs:
         s += "INVARIANTS %s\n" % invs
     if props:
@@ -59,7 +68,9 @@ def model(v, tier):
     # --- the property on the faithful spec (F2 class excepted) ---
     jobs.append(("Group_f2.cfg", "Group_f2.cfg", "pass", None, 6, "4g", 1500))
     jobs.append(("Group_live.cfg", "Group_live.cfg", "pass", None, 2, "2g", 900))
+    jobs.append(("Group_2g.cfg", "Group_2g.cfg", "pass", None, 4, "3g", 900))
     if not quick:
+        jobs.append(("Group_2gt.cfg", "Group_2gt.cfg", "pass", None, 8, "8g", 2400))
         jobs.append(("Group_live2.cfg", "Group_live2.cfg", "pass", None, 2, "3g", 1500))
         jobs.append(("Group_gen.cfg", "Group_gen.cfg", "pass", None, 8, "8g", 2400))
         jobs.append(("Group_async.cfg", "Group_async.cfg", "pass", None, 6, "6g", 2400))
@@ -70,7 +81,14 @@ def model(v, tier):
     # --- reachability witnesses: the bounds contain >= 2 completed generations ---
     jobs.append(("witness two generations", write_cfg("wit_gen", cfg_text("ProgF2", "NeverTwoGenerations", fair=False)),
                  "witness", "NeverTwoGenerations", 2, "2g", 600))
+    jobs.append(("witness cross-group item", write_cfg("wit_cross", cfg_text(
+        "Prog2G", "NeverCrossGroup", workers="{3}", groups="{1, 2}", spur=0, fair=False)),
+        "witness", "NeverCrossGroup", 2, "2g", 600))
     # --- spec mutants ---
+    for inv in MUTANTS_2G:
+        jobs.append(("mutant %s/%s" % (MUT2G[:18], inv), write_cfg("mut2g_" + inv, cfg_text(
+            "Prog2G", inv, mut=MUT2G, workers="{3}", groups="{1, 2}", spur=0, fair=False)),
+            "mutant", MUT2G + " by " + inv, 2, "2g", 900))
     for mut, invs in MUTANTS:
         jobs.append(("mutant " + mut, write_cfg("mut_" + mut, cfg_text("ProgF2", invs, mut=mut, fair=False)),
                      "mutant", mut, 2, "2g", 900))
@@ -135,7 +153,7 @@ def one_trace(args):
     rc, out, err = sh([drv, tr, str(s), str(perturb), str(execs), str(ops), str(steered)], timeout=600)
     res = {"i": i, "seed": s, "rc": rc, "err": err, "trace": tr, "r": None, "r2": None}
     if rc in (0, 2, 70, 71) and os.path.exists(tr):
-        hdr = {"maxn": 8}
+        hdr = TRACE_HDR
         res["r"] = validate_trace("GroupTrace.tla", "GroupTrace.cfg", tr, nthreads=count_threads(tr), header=hdr,
                                   metaname="C07tr%d.%d" % (i, os.getpid()), timeout=900)
         if not res["r"].accepted and rc == 0:
@@ -168,12 +186,17 @@ def traces(v, tier, seed):
         results = list(ex.map(one_trace, args))
     f2_impl = 0
     steered_hits = 0
+    nested = cross = 0
     for res in results:
         rc, err, tr, r, s = res["rc"], res["err"], res["trace"], res["r"], res["seed"]
         log("  trace seed=%d rc=%d %s %s" % (s, rc, err.strip().splitlines()[-1][-80:] if err.strip() else "",
                                          ("accepted=%s records=%s %.1fs" % (r.accepted, r.tracelen, r.wall)) if r else ""))
         m = re.search(r"early_blocks=(\d+) steered_f2_hits=(\d+)", err)
         c_early, hits = (int(m.group(1)), int(m.group(2))) if m else (0, 0)
+        m = re.search(r"nested=(\d+) cross_group_async=(\d+)", err)
+        if m and rc == 0:
+            nested += int(m.group(1))
+            cross += int(m.group(2))
         if rc in (2, 70, 71):
             what = {2: "API oracle failed", 70: "crash inside libdispatch",
                     71: "hang: a waiter or a notification was left behind"}[rc]
@@ -183,7 +206,7 @@ def traces(v, tier, seed):
                 k, ctx = context(r)
                 detail = "; " + (("invariant %s violated in the matched prefix" % r.violated) if r.violated else
                                  "first record no spec action explains is #%d" % k) + ": " + ctx
-            v.violation("%s (driver seed %d): %s%s" % (what, s, err.strip()[-300:], detail), p)
+            v.violation("%s (driver seed %d)%s; driver stderr: %s" % (what, s, detail, err.strip()[-300:]), p)
             continue
         if rc != 0:
             raise Broken("driver failed rc=%d: %s" % (rc, err[-1000:]))
@@ -214,6 +237,10 @@ def traces(v, tier, seed):
             v.samples.append({"trace": os.path.basename(tr), "records": r.tracelen, "F2_executions": k,
                               "excerpt": open(tr).read().splitlines()[0:14]})
     v.notes["f2_executions_seen_on_impl"] = f2_impl
+    v.notes["nested_operations_inside_items"] = nested
+    v.notes["items_that_group_async_into_another_group"] = cross
+    if v.traces and cross == 0:
+        raise Broken("no dispatch_group_async item submitted work to another group: the driver's histories are vacuous")
     v.notes["f2_steered_reproductions"] = steered_hits
     return f2_impl
 
@@ -223,7 +250,7 @@ def run(tier, seed):
     v.assumptions = ["futex wait/wake behave as specified (compare-and-sleep, wake-all, spurious wake-ups allowed)",
                      "real time is not modelled: the timeout step stands for 'the full timeout has elapsed'; the driver "
                      "checks elapsed wall time >= timeout on the real library",
-                     "TLC bounds: 3 threads, value field of 2 bits, <= 2 notifiers, <= 1 spurious wake-up; see models",
+                     "TLC bounds: 3 threads, 1 or 2 groups, value field of 2 bits, <= 2 notifiers, <= 1 spurious wake-up; see models",
                      "hooked build serialises traced atomics with their log record (global lock)",
                      "liveness is model-checked on small programs and reduced to the safety invariants NothingLeft/"
                      "StuckFree on the larger ones (the state graph of a finite client is acyclic but for CAS retries)"]
@@ -251,6 +278,6 @@ def replay(path, seed):
     if '"Header"' in hdr:
         r = tlc("GroupTrace.tla", "GroupTrace.cfg", workers=1, env={"TRACE": path}, dfs=True)
     else:
-        r = validate_trace("GroupTrace.tla", "GroupTrace.cfg", path, nthreads=count_threads(path), header={"maxn": 8})
+        r = validate_trace("GroupTrace.tla", "GroupTrace.cfg", path, nthreads=count_threads(path), header=TRACE_HDR)
     print(r.out[-3000:])
     return 0 if r.accepted else 1
